@@ -325,8 +325,9 @@ func (s MsgServer) UnbondedOracle(c context.Context, msg *types.MsgUnbondedOracl
 	balances := s.bankKeeper.GetAllBalances(ctx, delegateAddr)
 	slashAmount := types.NewDelegateAmount(oracle.GetSlashAmount(s.GetSlashFraction(ctx)))
 	if slashAmount.IsPositive() {
-		if balances.AmountOf(slashAmount.Denom).LT(slashAmount.Amount) {
-			return nil, types.ErrInvalid.Wrapf("not sufficient slash amount")
+		// a validator slash may have reduced the stake below the recorded amount: the penalty never exceeds what is left
+		if balance := balances.AmountOf(slashAmount.Denom); balance.LT(slashAmount.Amount) {
+			slashAmount = types.NewDelegateAmount(balance)
 		}
 		if err = s.bankKeeper.SendCoinsFromAccountToModule(ctx, delegateAddr, s.moduleName, sdk.NewCoins(slashAmount)); err != nil {
 			return nil, err
